@@ -364,6 +364,8 @@ def gen_enc(chk, program, rule='GEN-ENC', mask_rule='ENC-MASK', want=('table', '
             if 'table' in want:
                 chk.unknown(rule, f"{fname}::returns", f"the returned bytes are neither <int>.to_bytes(..) of OR-ed pieces nor readable as bits of producers: {t.not_bits}", PG, line)
             continue
+        if rows is None and t.problems:
+            continue        # not walkable (reported above as undecided): nothing is known about what it returns
         if rows is None:
             if 'table' in want:
                 chk.violation(rule, f"{fname}::returns", file=PG, line=line, func=fname,
